@@ -569,6 +569,8 @@ class Scenario(object):
                 return k + '/negative'
             if op[1] not in self.model.ports:
                 return k + '/unknown-portfolio'
+            if self.broker.current_dt < self._clock_before.get(op[1], self.broker.current_dt):
+                return k + '/stale-broker-clock'
             return k + '/over'
         if k in ('update', 'exec'):
             t = ts(op[1]) if k == 'update' else ts(op[3])
